@@ -226,6 +226,10 @@ func genC05(rt *rapid.T) c05Case {
 		pref = append(pref, id-1)
 	}
 	c.Steps = GenSchedule(rt, cfg, GenOpts{MaxSteps: 90, CutPrefer: pref})
+	if len(c.Iso) > 0 && len(cfg.Crashed) == 0 && rapid.IntRange(0, 3).Draw(rt, "relay") == 0 {
+		// the member that is cut off during the suffix is the only one that heard a round of timeouts first-hand
+		c.Steps = GenRelaySteps(rt, cfg, c.Iso[0]-1)
+	}
 	return c
 }
 
